@@ -12,6 +12,7 @@ import (
 	"strings"
 	"sync"
 
+	"golang.org/x/tools/go/packages"
 	"golang.org/x/tools/go/ssa"
 )
 
@@ -52,6 +53,9 @@ type Program struct {
 	typeIDs  []types.Type
 	typeIDMu sync.Mutex
 	Fset     *token.FileSet
+	Loaded   []*packages.Package
+	instrMu  sync.Mutex
+	instr    map[string]map[string]string
 }
 
 func (p *Program) info(fn *ssa.Function) *fnInfo {
@@ -226,6 +230,7 @@ type Violation struct {
 	Stack     []string
 	Split     map[string]int
 	Kinds     map[string]string
+	Sched     []int
 }
 
 type Inconclusive struct {
@@ -297,6 +302,9 @@ type Exec struct {
 	bigW              int
 	hashBits          int
 	flatBases         map[int]flatBaseInfo
+	locks             map[string]*lockState
+	guards            map[*Object]string
+	raceSeen          map[string]bool
 	splitIndex        bool
 }
 
@@ -336,6 +344,7 @@ func (ex *Exec) resetPath(prefix []int) {
 	ex.bigW = defaultBigW
 	ex.hashBits = 0
 	ex.flatBases = nil
+	ex.locks = nil
 	ex.splitIndex = false
 	ex.unwindIsViolation = false
 	ex.depth = 0
@@ -573,6 +582,9 @@ func (ex *Exec) load(p Pointer, site string) Value {
 	if p.Obj == nil {
 		ex.goPanicRuntime("invalid memory address or nil pointer dereference", site)
 	}
+	if ex.guards != nil {
+		ex.raceCheck(p.Obj, false, site)
+	}
 	root, ok := ex.memGet(p.Obj)
 	if !ok {
 		ex.unsupported("load from unknown object %s", p.Obj)
@@ -583,6 +595,9 @@ func (ex *Exec) load(p Pointer, site string) Value {
 func (ex *Exec) store(p Pointer, v Value, site string) {
 	if p.Obj == nil {
 		ex.goPanicRuntime("invalid memory address or nil pointer dereference", site)
+	}
+	if ex.guards != nil {
+		ex.raceCheck(p.Obj, true, site)
 	}
 	root, ok := ex.memGet(p.Obj)
 	if !ok {
